@@ -64,7 +64,8 @@ def plan(tier, mk):
     for g in range(GROUPS):
         jobs.append(dict(name="pos%d" % g, keys=pos[g::GROUPS], scope=0, max_mut=1, mut_depth=2, frames=2, styles=("std", "braced", "ws"), sigmas=4))
     for g in range(GROUPS):
-        jobs.append(dict(name="combo%d" % g, keys=combo[g::GROUPS], scope=1, max_mut=1, mut_depth=3, frames=2, styles=ALL_STYLES, sigmas=2))
+        jobs.append(dict(name="combo%d" % g, keys=combo[g::GROUPS], scope=1, max_mut=1, mut_depth=3, frames=2,
+                         styles=("std", "braced", "ws"), sigmas=1))
     # second-order mutants (two operators in a row), except for the types with model-value fields (too many)
     two = [k for k in base if k not in ("WithValue", "BodyValue", "HdrValue", "ModelVal", "VecNest", "Coll")]
     n2 = 2 * GROUPS
@@ -118,6 +119,14 @@ def _P(p):
     return {"c": "prim", "p": p}
 
 
+def _OPT(t):
+    return {"c": "opt", "e": t}
+
+
+def _VEC(t):
+    return {"c": "vec", "e": t}
+
+
 BODY_TYPES = [_P("stringc"), {"c": "named", "n": "Two"}, {"c": "vec", "e": _P("i32c")}]
 
 
@@ -130,7 +139,7 @@ def combo_cell(i, name, tag, hdr, body, nattr, mod, in_enum):
         # in a tuple struct a field that is written with a label (attribute, header slot) needs an explicit name
         label = rust if label is None else label
         fields.append({"rust": str(len(fields)) if tuple_ else rust, "name": label, "role": role, "ty": ty, "attrs": extra,
-                       "needs_name": tuple_ and role in ("attr", "header", "tag")})
+                       "needs_name": tuple_ and (role in ("attr", "header", "tag") or (role == "slot" and label != ""))})
 
     if tag == "field":
         add("level", "tag", _P("level"))
@@ -144,30 +153,32 @@ def combo_cell(i, name, tag, hdr, body, nattr, mod, in_enum):
         add("a%d" % (a + 1), "attr", _P("boolc") if a == 0 else _P("stringc"))
     # plain fields: the slots of a labelled / ordinal body; next to a delegated body they are lifted into the header
     plain = body in ("labelled", "tuple") or hdr == "implicit"
+    # (every cell has an Option-typed plain field, so: in both states in the instance domain.  In a tuple struct the body
+    #  fields are either all positional or - modifier rename - ALL renamed: the macro rejects a mix)
+    def plain_label(n):
+        if tuple_:
+            return "r_" + n if mod == "rename" else ""
+        return None
+
     if plain:
         if mod == "rename" and not tuple_:
             add("s1", "slot", _P("i32c"), label="renamed_s1")
         else:
-            add("s1", "slot", _P("i32c"), label="" if tuple_ else None)
+            add("s1", "slot", _P("i32c"), label=plain_label("s1"))
         if mod == "skip":
             add("sk", "skip", _P("i32c"))
+        add("so", "slot", _OPT(_P("i32c")), label=plain_label("so"))
         if body != "delegated":
-            add("s2", "slot", _P("stringc"), label="" if tuple_ else None)
-    elif mod == "skip":
-        add("sk", "skip", _P("i32c"))
+            add("s2", "slot", _P("stringc"), label=plain_label("s2"))
+    else:
+        if mod == "skip":
+            add("sk", "skip", _P("i32c"))
+        add("so", "slot", _OPT(_P("i32c")))
     if body == "delegated":
         add("b", "body", BODY_TYPES[(i // 3 + i) % len(BODY_TYPES)], label="" if tuple_ else None)
     declared = len(fields)
     shape = ("newtype" if declared == 1 else "tuple") if tuple_ else "named"
     return {"tag": name.lower() + "-tag" if tag == "rename" else name, "tag_attr": tag == "rename", "shape": shape, "fields": fields}
-
-
-def _OPT(t):
-    return {"c": "opt", "e": t}
-
-
-def _VEC(t):
-    return {"c": "vec", "e": t}
 
 
 def emission_cells():
@@ -201,15 +212,25 @@ def emission_cells():
         ("named", [("h1", "header", _VEC(I)), ("h2", "header", _OPT(I)), ("s1", "slot", _VEC(I))]),
         ("named", [("hb", "hbody", V), ("h1", "header", I), ("s1", "slot", I)]),
         ("named", [("h1", "header", V), ("s1", "slot", I)]),
+        # tuple structs / newtypes whose body fields have ALL been renamed (a labelled body on a tuple type; a mix of
+        # renamed and positional body fields is rejected by the macro), and their positional counterparts
+        ("tuple", [("f0", "slot", _OPT(I), "f0"), ("f1", "slot", S, "f1")]),
+        ("tuple", [("f0", "slot", _OPT(I), "f0"), ("f1", "slot", _OPT(S), "f1"), ("f2", "slot", I, "f2")]),
+        ("tuple", [("a1", "attr", _OPT(I)), ("f0", "slot", _OPT(I), "f0"), ("f1", "slot", S, "f1")]),
+        ("tuple", [("f0", "slot", _OPT(I), "f0")]),
+        ("tuple", [("f0", "slot", _OPT(I))]),
+        ("tuple", [("f0", "slot", _OPT(I)), ("f1", "slot", _OPT(S))]),
     ]
 
 
 def emission_fields(shape, spec):
     tuple_ = shape == "tuple"
     fields = []
-    for rust, role, ty in spec:
-        labelled = role in ("attr", "header", "tag")
-        fields.append({"rust": str(len(fields)) if tuple_ else rust, "name": rust if (labelled or not tuple_) else "", "role": role,
+    for ent in spec:
+        rust, role, ty = ent[:3]
+        label = ent[3] if len(ent) > 3 else None
+        labelled = role in ("attr", "header", "tag") or label is not None
+        fields.append({"rust": str(len(fields)) if tuple_ else rust, "name": (label or rust) if (labelled or not tuple_) else "", "role": role,
                        "ty": ty, "attrs": "", "needs_name": tuple_ and labelled})
     return fields, (("newtype" if len(fields) == 1 else "tuple") if tuple_ else "named")
 
@@ -250,6 +271,12 @@ def combo_table():
         fields, sh = emission_fields(*ecells[i])
         variants.append({"vname": "V%d" % j, "tag": "V%d" % j, "tag_attr": False, "shape": sh, "fields": fields, "cell": ["emission", "", "", 0, ""]})
     out.append(("KOE0", {"kind": "enum", "variants": variants}))
+    # tuple / newtype VARIANTS with renamed and with positional optional fields
+    variants = []
+    for j, i in enumerate(range(len(ecells) - 6, len(ecells))):
+        fields, sh = emission_fields(*ecells[i])
+        variants.append({"vname": "V%d" % j, "tag": "V%d" % j, "tag_attr": False, "shape": sh, "fields": fields, "cell": ["emission", "", "", 0, ""]})
+    out.append(("KOE1", {"kind": "enum", "variants": variants}))
     return out
 
 
@@ -1031,6 +1058,8 @@ def kf_match(f, law, kind, ty, subject, bits):
     been observed."""
     for sig in f["signature"]:
         pattern = sig["cases"].get(ty, sig["cases"].get("*"))      # "*": any battery type
+        if pattern is None:                                          # "K*": any battery type whose key starts with K
+            pattern = next((v for k, v in sig["cases"].items() if k.endswith("*") and len(k) > 1 and ty.startswith(k[:-1])), None)
         if sig["law"] != law or sig["op"] != kind or pattern is None:
             continue
         # a panic of the code under test is only ever covered by a clause that names it
